@@ -7,6 +7,7 @@
 package verifpt
 
 import (
+	"os"
 	"runtime"
 	"strconv"
 	"strings"
@@ -29,6 +30,7 @@ var (
 	initPending int
 	diverged    string
 	freeRun     bool
+	trace       = os.Getenv("VERIF_PT_TRACE") != ""
 )
 
 func goid() int64 {
@@ -157,6 +159,10 @@ func Point() {
 	tid, ok := tids[goid()]
 	if !ok {
 		return
+	}
+	if trace {
+		_, file, line, _ := runtime.Caller(2)
+		println("PT tid", tid, "pos", pos, file, line)
 	}
 	if tid == 0 {
 		runInitial(0)
